@@ -141,10 +141,35 @@ def text_rewriters(ctx, prog):
             n += 1
             if key in reviewed:
                 ctx.reviewed("F8-text-rewriters", key, reviewed[key])
+            elif _inherits_review(prog, dname, api, reviewed, fn_key):
+                # a private helper split out of reviewed writer(s): same transformation, same review
+                ctx.reviewed("F8-text-rewriters", key, "helper called only by functions reviewed for the same transformation: " + _inherits_review(prog, dname, api, reviewed, fn_key))
             else:
                 ctx.fail("F8-text-rewriters", key, f"{mir.short(dname)} transforms text at character level with {api}; this site is not in the reviewed table: "
                          "a transformation of emitted text can drop or add a bracket that the literal analysis cannot see", where=b.where(bi))
     ctx.floor("character-level text transformations in css / output", n, 10)
+
+
+def _inherits_review(prog, dname, api, reviewed, fn_key):
+    root = dname
+    while root in prog.bodies and prog.bodies[root].raw.get("parent"):
+        root = prog.bodies[root].raw["parent"]
+    callers = [c for c in prog.callers_of(root) if c != root]
+    if not callers:
+        return None
+    keys = []
+    for c in callers:
+        croot = c
+        while croot in prog.bodies and prog.bodies[croot].raw.get("parent"):
+            croot = prog.bodies[croot].raw["parent"]
+        # same module (private helper) and the caller is itself reviewed for this API
+        if croot.rsplit("::", 1)[0].lstrip("<&") .split(">")[0] != root.rsplit("::", 1)[0].lstrip("<&").split(">")[0]:
+            return None
+        k = f"{fn_key(croot, prog)}|{api}"
+        if k not in reviewed:
+            return None
+        keys.append(k)
+    return "; ".join(sorted(set(keys)))
 
 
 def buffer_trims(ctx, tree):
